@@ -30,9 +30,10 @@ type fieldPrint struct {
 	Users []string
 }
 
-var fnAlias = map[*ssa.Function]string{} // analysed function → recorded name
-var fieldAlias = map[*types.Var]string{} // analysed field → recorded field name
-var renamedAnchors []string              // human-readable list for the evidence
+var fnAlias = map[*ssa.Function]string{}     // analysed function → recorded name
+var fieldAlias = map[*types.Var]string{}     // analysed field → recorded field name
+var typeAlias = map[*types.TypeName]string{} // analysed named type → recorded name
+var renamedAnchors []string                  // human-readable list for the evidence
 
 func sigString(fn *ssa.Function) string {
 	return types.TypeString(fn.Signature, func(p *types.Package) string { return p.Name() })
@@ -56,11 +57,11 @@ func (c *Ctx) fnTokens(fn *ssa.Function) []string {
 				}
 			case *ssa.FieldAddr:
 				if owner, f2, _ := fieldOf(x); f2 != nil && owner != nil {
-					set["field:"+owner.Obj().Name()+"."+f2.Name()] = true
+					set["field:"+objName(owner.Obj())+"."+f2.Name()] = true
 				}
 			case *ssa.Field:
 				if owner, f2, _ := fieldOf(x); f2 != nil && owner != nil {
-					set["field:"+owner.Obj().Name()+"."+f2.Name()] = true
+					set["field:"+objName(owner.Obj())+"."+f2.Name()] = true
 				}
 			}
 			for _, op := range in.Operands(nil) {
@@ -112,7 +113,7 @@ func rawFnName(c *Ctx, fn *ssa.Function) string {
 		pk = shortPkg(fn.Pkg.Pkg.Path())
 	}
 	if recv := fn.Signature.Recv(); recv != nil {
-		return pk + ".(" + types.TypeString(recv.Type(), func(*types.Package) string { return "" }) + ")." + fn.Name()
+		return pk + ".(" + canonTypeNames(types.TypeString(recv.Type(), func(*types.Package) string { return "" })) + ")." + fn.Name()
 	}
 	return pk + "." + fn.Name()
 }
@@ -129,7 +130,6 @@ func prefixOf(name string) string {
 func (c *Ctx) matchRenamedAnchors() {
 	fnAlias = map[*ssa.Function]string{}
 	fieldAlias = map[*types.Var]string{}
-	renamedAnchors = nil
 	if len(anchorFnPrints) == 0 {
 		return
 	}
@@ -156,7 +156,7 @@ func (c *Ctx) matchRenamedAnchors() {
 		var best *ssa.Function
 		bestS, secondS := -1.0, -1.0
 		for _, fn := range fresh {
-			if taken[fn] || prefixOf(rawFnName(c, fn)) != prefixOf(name) || sigString(fn) != pr.Sig {
+			if taken[fn] || prefixOf(rawFnName(c, fn)) != prefixOf(name) || canonTypeNames(sigString(fn)) != pr.Sig {
 				continue
 			}
 			s := jaccard(pr.Toks, c.fnTokens(fn))
@@ -211,7 +211,7 @@ func (c *Ctx) matchRenamedAnchors() {
 			if _, used := fieldAlias[f]; used {
 				continue
 			}
-			if types.TypeString(f.Type(), func(p *types.Package) string { return p.Name() }) == pr.Type {
+			if canonTypeNames(types.TypeString(f.Type(), func(p *types.Package) string { return p.Name() })) == pr.Type {
 				cands = append(cands, f)
 			}
 		}
@@ -287,6 +287,38 @@ func (c *Ctx) genAnchors(path string) {
 	for _, k := range fkeys {
 		fmt.Fprintf(&b, "\t%q: {%q, nil},\n", k, ftype[k])
 	}
+	b.WriteString("}\n\nvar anchorTypePrints = map[string][]string{\n")
+	var tkeys []string
+	tmem := map[string][]string{}
+	for path, tp := range c.Types {
+		if !strings.HasPrefix(path, modPath) {
+			continue
+		}
+		for _, nm := range tp.Scope().Names() {
+			tn, isT := tp.Scope().Lookup(nm).(*types.TypeName)
+			if !isT {
+				continue
+			}
+			named, isN := tn.Type().(*types.Named)
+			if !isN {
+				continue
+			}
+			k := shortPkg(path) + "." + nm
+			tkeys = append(tkeys, k)
+			tmem[k] = typeMembers(named)
+		}
+	}
+	sort.Strings(tkeys)
+	for _, k := range tkeys {
+		fmt.Fprintf(&b, "\t%q: {", k)
+		for i, m := range tmem[k] {
+			if i > 0 {
+				b.WriteString(", ")
+			}
+			fmt.Fprintf(&b, "%q", m)
+		}
+		b.WriteString("},\n")
+	}
 	b.WriteString("}\n")
 	if err := os.WriteFile(path, []byte(b.String()), 0o644); err != nil {
 		brokenf("write %s: %v", path, err)
@@ -303,4 +335,104 @@ func baseName(f *ssa.Function) string {
 		return a[strings.LastIndex(a, ".")+1:]
 	}
 	return f.Name()
+}
+
+// objName: the recorded name of a named type if it was matched as renamed, else the object's own name.
+func objName(o types.Object) string {
+	if tn, isT := o.(*types.TypeName); isT {
+		if a, isA := typeAlias[tn]; isA {
+			return a
+		}
+	}
+	return o.Name()
+}
+
+// canonTypeNames rewrites the names of renamed types inside a printed type or function name.
+func canonTypeNames(s string) string {
+	for tn, old := range typeAlias {
+		s = wordReplace(s, tn.Name(), old)
+	}
+	return s
+}
+
+func wordReplace(s, from, to string) string {
+	if from == "" || !strings.Contains(s, from) {
+		return s
+	}
+	var b strings.Builder
+	isW := func(c byte) bool {
+		return c == '_' || c >= '0' && c <= '9' || c >= 'a' && c <= 'z' || c >= 'A' && c <= 'Z'
+	}
+	for i := 0; i < len(s); {
+		if strings.HasPrefix(s[i:], from) && (i == 0 || !isW(s[i-1])) && (i+len(from) == len(s) || !isW(s[i+len(from)])) {
+			b.WriteString(to)
+			i += len(from)
+			continue
+		}
+		b.WriteByte(s[i])
+		i++
+	}
+	return b.String()
+}
+
+func typeMembers(n *types.Named) []string {
+	var out []string
+	if st, isS := n.Underlying().(*types.Struct); isS {
+		for i := 0; i < st.NumFields(); i++ {
+			out = append(out, "field:"+st.Field(i).Name()+":"+types.TypeString(st.Field(i).Type(), func(p *types.Package) string { return p.Name() }))
+		}
+	} else {
+		out = append(out, "underlying:"+types.TypeString(n.Underlying(), func(p *types.Package) string { return p.Name() }))
+	}
+	for i := 0; i < n.NumMethods(); i++ {
+		out = append(out, "method:"+n.Method(i).Name())
+	}
+	// a type that mentions itself (type stateFn func(*lexer) stateFn) must not depend on its own name
+	for i := range out {
+		out[i] = wordReplace(out[i], n.Obj().Name(), "SELF")
+	}
+	sort.Strings(out)
+	return out
+}
+
+// matchRenamedTypes runs before the functions are indexed.
+func (c *Ctx) matchRenamedTypes() {
+	typeAlias = map[*types.TypeName]string{}
+	for key, members := range anchorTypePrints {
+		parts := strings.SplitN(key, ".", 2)
+		var tp *types.Package
+		for path, p := range c.Types {
+			if strings.HasPrefix(path, modPath) && shortPkg(path) == parts[0] {
+				tp = p
+			}
+		}
+		if tp == nil || tp.Scope().Lookup(parts[1]) != nil {
+			continue
+		}
+		var best *types.TypeName
+		bestS, secondS := -1.0, -1.0
+		for _, nm := range tp.Scope().Names() {
+			tn, isT := tp.Scope().Lookup(nm).(*types.TypeName)
+			if !isT {
+				continue
+			}
+			if _, recorded := anchorTypePrints[parts[0]+"."+nm]; recorded {
+				continue
+			}
+			named, isN := tn.Type().(*types.Named)
+			if !isN {
+				continue
+			}
+			s := jaccard(members, typeMembers(named))
+			if s > bestS {
+				best, secondS, bestS = tn, bestS, s
+			} else if s > secondS {
+				secondS = s
+			}
+		}
+		if best != nil && bestS >= 0.5 && bestS-secondS >= 0.1 {
+			typeAlias[best] = parts[1]
+			renamedAnchors = append(renamedAnchors, fmt.Sprintf("type %s.%s is taken for the recorded %s (%.0f%% of its fields and methods)", parts[0], best.Name(), key, bestS*100))
+		}
+	}
 }
